@@ -362,6 +362,10 @@ class SafeLearner(Learner):
             kwargs = pred[-1] if self._pred_kwargs else {}
             pred   = pred[:-1] if self._pred_kwargs else pred
 
+            #with the kwargs removed a lone column (a dict hint or a bare action column) is still wrapped
+            if self._pred_kwargs and len(pred) == 1 and self._pred_format != 'PM':
+                pred = pred[0]
+
             if self._pred_format.endswith('*'):
                 pred = list(pred.values())[0]
 
